@@ -1,4 +1,4 @@
-(** * C04 — Relation targets stay consistent; removing a target detaches, never corrupts.  (over histories the invariant is proved for ONE class containing core + queries + filters + registration + the five batch operations + Reset (Rel2HistAll / Rel2HistAllR: [C04_invariant_after_every_history_merged], [C04_invariant_after_every_history_merged_with_resets]) and, with observers of any callback kind AND Reset in the same class, [C04_invariant_after_every_history_merged_with_observers_and_resets_partial] (Rel2HistAllOR); the separate classes of Rel2HistQ, Rel2HistO, Rel2HistR, Rel2BatchHist are sub-classes. The one restriction left: a BATCH line on an unlocked world must run while no observer is registered (the whole-batch event passes are not simulated): partial in that sense only; see the end of the file)
+(** * C04 — Relation targets stay consistent; removing a target detaches, never corrupts.  (over histories the invariant is proved for ONE class containing core + queries + filters + registration + the five batch operations + Reset (Rel2HistAll / Rel2HistAllR: [C04_invariant_after_every_history_merged], [C04_invariant_after_every_history_merged_with_resets]) and, with observers of any callback kind AND Reset in the same class, [C04_invariant_after_every_history_merged_with_observers_and_resets_partial] (Rel2HistAllOR); the separate classes of Rel2HistQ, Rel2HistO, Rel2HistR, Rel2BatchHist are sub-classes. The one restriction left: a BATCH line on an unlocked world must run while no observer is registered (the whole-batch event passes are not simulated): partial in that sense only; see the end of the file. Package U2 removes that restriction: [C04_invariant_after_every_history_merged_with_observers] (Rel2HistAllO2), [C04_invariant_after_every_history_merged_with_observers_and_resets] (Rel2HistAllOR2))
 
     Proved here are the MECHANISM lemmas that keep relation targets valid, in general worlds:
     - table creation validates every relation before changing anything: a target that is neither
@@ -65,6 +65,7 @@ From Ark Require Import Proofs.WF Proofs.StorageA Proofs.StorageBDefs Proofs.Rel
 From Ark Require Import Proofs.Rel2HistQ.
 From Ark Require Import Proofs.Rel2Defs Proofs.Rel2Maint Proofs.Rel2Hist Proofs.Rel2HistQ Proofs.ObsErase Proofs.Rel2HistO Proofs.Rel2HistR Proofs.Rel2BatchHist.
 From Ark Require Import Proofs.Rel2HistAll Proofs.Rel2HistAllR Proofs.Rel2HistAllO Proofs.Rel2HistAllOR.
+From Ark Require Import Proofs.ObsEraseBatch Proofs.Rel2HistAllO2 Proofs.Rel2HistAllOR2.
 
 Theorem C04_create_table_rejects_invalid : forall s aid a rels,
   nth_error (w_archs s) aid = Some a ->
@@ -467,7 +468,42 @@ Theorem C04_targets_always_zero_or_alive_merged_with_observers_and_resets_partia
          tgt (exec c lines) e cmp = Some x -> x = zero_ent \/ live (exec c lines) x = true.
 Proof. exact targets_always_zero_or_alive_allOR_partial. Qed.
 
-Definition C04_all := (C04_invariant_after_every_history_merged_with_observers_and_resets_partial, C04_targets_always_zero_or_alive_merged_with_observers_and_resets_partial, C04_invariant_after_every_history_merged, C04_targets_always_zero_or_alive_merged, C04_remove_target_detaches_merged, C04_invariant_after_every_history_merged_with_resets, C04_targets_always_zero_or_alive_merged_with_resets, C04_remove_target_detaches_merged_with_resets, C04_invariant_after_every_history_merged_with_observers_partial, C04_targets_always_zero_or_alive_merged_with_observers_partial,
+(** Package U2 (Rel2HistAllO2, by the batch erasure simulation of ObsEraseBatch): stage 3 WITHOUT the restriction: all five
+    batch operations may run WITH registered observers (whole-batch event passes, any callback kind, callbacks may fail);
+    the condition is on each line only ([rel_allO_line2]: class, registered ids, filter relations). *)
+Theorem C04_invariant_after_every_history_merged_with_observers :
+  forall (c : script_cfg) (lines : list (list Z)),
+         cfg_ok2 c ->
+         Forall (rel_allO_line2 (sc_kinds c)) lines ->
+         r2h_total lines + 4 < 2 ^ 31 -> InvAllO (exec c lines) (r2h_total lines).
+Proof. exact reachable_inv_allO. Qed.
+
+Theorem C04_targets_always_zero_or_alive_merged_with_observers :
+  forall (c : script_cfg) (lines : list (list Z)) (e : ent) (cmp : nat) (x : ent),
+         cfg_ok2 c ->
+         Forall (rel_allO_line2 (sc_kinds c)) lines ->
+         r2h_total lines + 4 < 2 ^ 31 ->
+         tgt (exec c lines) e cmp = Some x -> x = zero_ent \/ live (exec c lines) x = true.
+Proof. exact targets_always_zero_or_alive_allO. Qed.
+
+(** ... and with Reset in the same class (Rel2HistAllOR2): the side conditions left are those of Rel2HistAllR (foreign handles
+    in relation-target position proper), stated per line and state ([rel_allOR_hist2]); no condition on the observers. *)
+Theorem C04_invariant_after_every_history_merged_with_observers_and_resets :
+  forall (c : script_cfg) (lines : list (list Z)),
+         cfg_ok2 c ->
+         rel_allOR_hist2 (sc_debug c) (sc_kinds c) (init_world c, 0) lines ->
+         r2h_total lines + 4 < 2 ^ 31 -> InvAllOR (exec c lines) (r2h_total lines) (r2r_epoch_of c lines).
+Proof. exact reachable_inv_allOR. Qed.
+
+Theorem C04_targets_always_zero_or_alive_merged_with_observers_and_resets :
+  forall (c : script_cfg) (lines : list (list Z)) (e : ent) (cmp : nat) (x : ent),
+         cfg_ok2 c ->
+         rel_allOR_hist2 (sc_debug c) (sc_kinds c) (init_world c, 0) lines ->
+         r2h_total lines + 4 < 2 ^ 31 ->
+         tgt (exec c lines) e cmp = Some x -> x = zero_ent \/ live (exec c lines) x = true.
+Proof. exact targets_always_zero_or_alive_allOR. Qed.
+
+Definition C04_all := (C04_invariant_after_every_history_merged_with_observers_and_resets, C04_targets_always_zero_or_alive_merged_with_observers_and_resets, C04_invariant_after_every_history_merged_with_observers, C04_targets_always_zero_or_alive_merged_with_observers, C04_invariant_after_every_history_merged_with_observers_and_resets_partial, C04_targets_always_zero_or_alive_merged_with_observers_and_resets_partial, C04_invariant_after_every_history_merged, C04_targets_always_zero_or_alive_merged, C04_remove_target_detaches_merged, C04_invariant_after_every_history_merged_with_resets, C04_targets_always_zero_or_alive_merged_with_resets, C04_remove_target_detaches_merged_with_resets, C04_invariant_after_every_history_merged_with_observers_partial, C04_targets_always_zero_or_alive_merged_with_observers_partial,
   C04_invariant_after_every_history_with_observers, C04_targets_always_zero_or_alive_with_observers, C04_remove_target_detaches_with_observers, C04_invariant_after_every_history_with_resets, C04_targets_always_zero_or_alive_with_resets, C04_remove_target_detaches_with_resets, C04_invariant_after_every_history_with_batches, C04_invariant_after_every_history_with_queries, C04_targets_always_zero_or_alive_with_queries, C04_remove_target_detaches_with_queries, C04_remove_target_rejected_when_locked, C04_invariant_after_every_history, C04_step_preserves_invariant, C04_targets_always_zero_or_alive,
   C04_remove_target_detaches_history, C04_target_is_last_assigned, C04_stale_handle_rejected, C04_reset_succeeds, C04_history_examples,
   C04_targets_zero_or_alive, C04_remove_entity, C04_remove_fails_only_for_dead, C04_remove_target_detaches,
